@@ -4,6 +4,7 @@ import AgdbColl.Lemmas.Values
 import AgdbColl.Lemmas.IndexInv
 import AgdbColl.Lemmas.Refine2
 import AgdbColl.Lemmas.RemoveComplete
+import AgdbColl.Lemmas.ValuesRefine
 /-!
 # C19 — every query terminates after any history (hashed collections)
 
@@ -225,7 +226,8 @@ function) and the next operation:
 * `reserve` — and every `rehash`, grow or shrink, inside the other operations — changes no count;
 * `value` / `contains` answer `some v` only for a stored pair `(key, v)` and `none` only if no pair
   of the key is stored.
-Not covered (see `MultiMap_refines_statement`): multiplicities of `values`, `insert_or_replace`. -/
+`values`: `MultiMap_refines_values`. Not covered (see `MultiMap_refines_statement`):
+multiplicities of `values`, `insert_or_replace`. -/
 theorem MultiMap_refines (h : K → Nat) (m : MM K T) (hr : ReachableIndex h m) :
     m.len = countValid m.slots ∧
     (∀ k v F m', opFuel m (.insert k v) ≤ F → insert h F m k v = .ok m' →
@@ -297,6 +299,14 @@ theorem MultiMap_refines_partial (h : K → Nat) (m : MM K T) (hr : ReachableInd
     | reserve c => exact (reserve_refine h F m m' c hi hc hok).2 P hP
   · intro key F r hv
     exact value_refine h F m key hc r hv
+
+/-- **`values` agrees with the multiset** (full, as a set): on every state of an index multimap
+`values key` (what `search().index(..).value(..)` reads) returns a value iff the pair
+`(key, value)` is stored. (Multiplicities are not proved: `MultiMap_refines_statement`.) -/
+theorem MultiMap_refines_values (h : K → Nat) (m : MM K T) (hr : ReachableIndex h m) (key : K)
+    (F : Nat) (vs : List T) (hv : values h F m key = .ok vs) :
+    ∀ v, v ∈ vs ↔ 0 < cnt (pairP key v) m.slots :=
+  values_refine h F m key (C19_index_chain h m hr) (C19_index_nowrap h m hr) vs hv
 
 /-- every history runs to completion (so `Reachable` is the closure over ALL histories) -/
 theorem C19_every_history_runs (h : K → Nat) (ops : List (MOp K T)) :
